@@ -217,7 +217,7 @@ Inductive op :=
 | Call (k : callkind)
 | Answer (rid : Z)            (* complete answer sequence for reqID rid: getRequest then complete *)
 | Error (rid : Z)             (* complete error sequence: getRequest then fail *)
-| AnswerViolation (rid : Z)   (* Violation while receiving the body of an answer whose reqID was read *)
+| AnswerViolation (rid : Z)   (* Violation while receiving the body of an answer OR error sequence whose reqID was read *)
 | Complete (h : nat)          (* complete() on an already bound request object (answer finished late) *)
 | Fail (h : nat) (o : outcome)(* fail() on a request object: send failure (OSendFail), late failure *)
 | Finish (r : reason)         (* connectionLost(why) / shutdown(why); r classifies why *)
